@@ -481,7 +481,15 @@ def run(tier, seed=0, replay=None, procs=None, only=None):
 
     def late():
         rv, notes = roundtrip_checks(tier)
-        return rv, [], dict(roundtrips=notes)
+        from symx import envsweep
+        form = re.compile(r'\w+ since \d{4}-\d{2}-\d{2} \d{2}:\d{2}:\d{2} [+-]\d{1,2}(:?\d{2})?')
+        ev, _, extra = envsweep.late([
+            ('save_with_two_time_variables', "time units have the form '<unit> since YYYY-MM-DD HH:MM:SS <signed offset>'",
+             lambda v: v['time_coordinate'] == 'time' and form.fullmatch(v['time']) is not None and v['instants'][0].startswith('2020-01-01T00:00:00')),
+            ('format_units', 'the rewritten units denote the same reference instant for every UTC offset',
+             lambda v: v[0] == 'days since 1990-01-01 00:00:00 +10:00' and v[1] == 'hours since 2021-11-16 12:00:00 -03:30' and all(form.fullmatch(u) for u in v)),
+        ])()
+        return rv + ev, [], dict(roundtrips=notes, **extra)
     return main_run(
         PROP, tier, cs, functions=functions(), seed=seed, procs=procs, late_checks=late,
         extra_evidence=dict(reader_conformance_comparisons=nconf),
